@@ -188,6 +188,42 @@ fn radix_literals(l: Lay, rx: u32, rng: &mut Rng, count: usize) -> Vec<Vec<u8>> 
             out.push(x);
         }
     }
+    // integer parts exactly at the range edges: 2^ib - 1, 2^ib, 2^ib + 1 and the same for ib - 1 (signed edge)
+    {
+        let ib = l.w - l.f;
+        let mut edges: Vec<u128> = vec![];
+        for e in [ib, ib.saturating_sub(1)] {
+            if e >= 1 && e <= 126 {
+                let p = 1u128 << e;
+                edges.extend_from_slice(&[p - 1, p, p + 1, p + (p >> 1)]);
+            }
+        }
+        for v in edges {
+            let mut id = vec![];
+            let mut t = v;
+            while t > 0 { id.push(dig((t % rx as u128) as u32)); t /= rx as u128; }
+            if id.is_empty() { id.push(b'0'); }
+            id.reverse();
+            for neg in [false, true] {
+                for tail in [&b""[..], &b".0"[..], &b"."[..]] {
+                    let mut x = vec![];
+                    if neg { x.push(b'-'); }
+                    x.extend_from_slice(&id);
+                    x.extend_from_slice(tail);
+                    out.push(x);
+                }
+                // just below / at the half digit after the edge
+                let mut x = vec![];
+                if neg { x.push(b'-'); }
+                x.extend_from_slice(&id);
+                x.push(b'.');
+                let nd = ((l.f + db - 1) / db) as usize;
+                for _ in 0..nd { x.push(dig(rx - 1)); }
+                x.push(dig(rx / 2));
+                out.push(x);
+            }
+        }
+    }
     // integer part at / beyond the overflow edge
     let ibits = l.w - l.f;
     for extra in [0u32, 1, 2] {
